@@ -318,7 +318,8 @@ class Ctx:
         us.update({'vp_memset.0': 600, 'vp_memcpy.0': 130, 'vp_memmove.0': 130, 'vp_memmove.1': 130, 'vp_dup.0': 66,
               'vp_strlen.0': 66, 'vp_libc_memcmp.0': 66, 'vp_libc_memchr.0': 66,
                    'vp_obj_rank.0': 30, 'vp_libc_strcmp.0': 260, 'vp_mul64x64.0': 12, 'vp_divrem64.0': 12,
-                   'vp_vec_cr_realloc_insert.0': 10, 'vp_vec_cr_realloc_insert.1': 10})
+                   'vp_vec_cr_realloc_insert.0': 10, 'vp_vec_cr_realloc_insert.1': 10,
+                   'vp_string_empty.0': 130, 'vp_cap_puts.0': 110})
         us.update(unwindset or {})
         cmd += ['--unwindset', ','.join('%s:%d' % kv for kv in us.items())]
         if object_bits:
